@@ -73,7 +73,7 @@ def _trace_shard(ctx, idx, path, workers, lock, agg):
            "-noGenerateSpecTE", "-deadlock", "MaskTrace"]
     t = time.time()
     try:
-        p = subprocess.run(cmd, cwd=d, stdout=subprocess.PIPE, stderr=subprocess.STDOUT, timeout=900, text=True,
+        p = subprocess.run(cmd, cwd=d, stdout=subprocess.PIPE, stderr=subprocess.STDOUT, timeout=2700, text=True,
                            errors="replace")
     except subprocess.TimeoutExpired:
         raise vlib.Infra("TLC timeout validating record file %d" % idx)
@@ -108,7 +108,7 @@ def run(ctx):
     cfgs = ["Mask_quick.cfg", "Mask_quick3.cfg"] if not thorough else ["Mask_thorough.cfg", "Mask_thorough4.cfg"]
     total = {k: 0 for k in REQUIRED_CLASSES}
     for cfg in cfgs:
-        res = ctx.tlc_expect_ok("Mask", cfg, timeout=1500, deadlock=False)
+        res = ctx.tlc_expect_ok("Mask", cfg, timeout=4500, deadlock=False)
         cl = _tally(res)
         model[cfg] = {"cases": len(res.printed), "classes": cl}
         for k, v in cl.items():
@@ -119,11 +119,11 @@ def run(ctx):
     if missing:
         raise vlib.Infra("abstract enumeration is vacuous: no explored case of class %s" % missing)
     if thorough:
-        res = ctx.tlc_expect_ok("Mask", "Mask_repaired.cfg", timeout=1500, deadlock=False, overrides={"MaxLen": "3"})
+        res = ctx.tlc_expect_ok("Mask", "Mask_repaired.cfg", timeout=4500, deadlock=False, overrides={"MaxLen": "3"})
         vlib.log("spec Mask_repaired.cfg (D13 off, repaired loop acceptable on every table): %d states, %.0fs"
                  % (res.distinct, res.wall))
     # every match of the engine (n = -1) is rewritten: the mutant "first match only when the text starts with an anchor"
-    mut0 = ctx.tlc("Mask", "Mask_mutant_allmatches.cfg", timeout=300, deadlock=False, workers=4,
+    mut0 = ctx.tlc("Mask", "Mask_mutant_allmatches.cfg", timeout=900, deadlock=False, workers=4,
                    name="Mask/mutant M_AllMatches (expected violation)")
     if mut0.ok or mut0.violated != "ReturnsAcceptable":
         raise vlib.Infra("mutant M_AllMatches=FALSE was not rejected by TLC (violated=%s)" % mut0.violated)
@@ -132,10 +132,10 @@ def run(ctx):
     model["M_AllMatches"] = {"mutant_rejected": True, "mutant_trace_len": len(mut0.trace)}
     # the do_if dimension: evaluate-once mechanism accepted, its mutant (re-evaluation per value on the partially
     # masked event) rejected -- a spec-mutant run: TLC MUST find the violation, otherwise the model is blind to it
-    res = ctx.tlc_expect_ok("MaskDoIf", "MaskDoIf_quick.cfg", timeout=300, deadlock=False,
+    res = ctx.tlc_expect_ok("MaskDoIf", "MaskDoIf_quick.cfg", timeout=900, deadlock=False,
                             overrides={"NF": "4"} if thorough else None)
     vlib.log("spec MaskDoIf_quick.cfg (do_if decided on the original event): %d states, %.0fs" % (res.distinct, res.wall))
-    mut = ctx.tlc("MaskDoIf", "MaskDoIf_mutant.cfg", timeout=300, deadlock=False, name="MaskDoIf/mutant (expected violation)")
+    mut = ctx.tlc("MaskDoIf", "MaskDoIf_mutant.cfg", timeout=900, deadlock=False, name="MaskDoIf/mutant (expected violation)")
     if mut.ok or mut.violated != "DoIfOnOriginal":
         raise vlib.Infra("mutant M_DoIfOnOriginalEvent=FALSE was not rejected by TLC (violated=%s): MaskDoIf.tla no longer "
                          "distinguishes the mechanism" % mut.violated)
@@ -143,8 +143,8 @@ def run(ctx):
              % len(mut.trace))
     model["MaskDoIf"] = {"mechanism_states": res.distinct, "mutant_rejected": True, "mutant_trace_len": len(mut.trace)}
     # match rules under several instances: stateless evaluation accepted, scratch buffer on the shared rule set rejected
-    res = ctx.tlc_expect_ok("MaskRules", "MaskRules_quick.cfg", timeout=300, deadlock=False, workers=4)
-    mut = ctx.tlc("MaskRules", "MaskRules_mutant.cfg", timeout=300, deadlock=False, workers=4,
+    res = ctx.tlc_expect_ok("MaskRules", "MaskRules_quick.cfg", timeout=900, deadlock=False, workers=4)
+    mut = ctx.tlc("MaskRules", "MaskRules_mutant.cfg", timeout=900, deadlock=False, workers=4,
                   name="MaskRules/mutant (expected violation)")
     if mut.ok or mut.violated != "DecisionIsFunctionOfValue":
         raise vlib.Infra("mutant M_MatchStateless=FALSE was not rejected by TLC (violated=%s): MaskRules.tla no longer "
@@ -153,8 +153,8 @@ def run(ctx):
              "(scratch buffer on the shared rule set, 2 instances) rejected with a %d-state counterexample"
              % (res.distinct, len(mut.trace)))
     # number / index of masks: a per-field mask set that can hold every index accepted, a W-bit set rejected
-    res2 = ctx.tlc_expect_ok("MaskSet", "MaskSet_quick.cfg", timeout=300, deadlock=False, workers=4)
-    mut2 = ctx.tlc("MaskSet", "MaskSet_mutant.cfg", timeout=300, deadlock=False, workers=4,
+    res2 = ctx.tlc_expect_ok("MaskSet", "MaskSet_quick.cfg", timeout=900, deadlock=False, workers=4)
+    mut2 = ctx.tlc("MaskSet", "MaskSet_mutant.cfg", timeout=900, deadlock=False, workers=4,
                    name="MaskSet/mutant (expected violation)")
     if mut2.ok or mut2.violated != "IndexIndependent":
         raise vlib.Infra("mutant M_MaskSetUnbounded=FALSE was not rejected by TLC (violated=%s): MaskSet.tla no longer "
@@ -176,7 +176,7 @@ def run(ctx):
         json.dump(keys, open(kp, "w"))
         env["VERIF_C17_REPLAY"] = kp
     t0 = time.time()
-    rc, txt = ctx.run_bin(binary, "^TestVerifC17$", env=env, timeout=1500)
+    rc, txt = ctx.run_bin(binary, "^TestVerifC17$", env=env, timeout=4500)
     if rc != 0 or not os.path.exists(summ):
         raise vlib.Infra("C17 driver failed rc=%s:\n%s" % (rc, txt[-3000:]))
     sm = json.load(open(summ))
